@@ -29,8 +29,10 @@ Record mdecl := {
   md_allow : bool;
   md_providers : list provider;           (* index 0 = machine, 1 = model, 2.. = listeners *)
   md_coro : list cbref;                   (* the callbacks written as `async def` *)
-  md_rounds : list (list nat) }.          (* resolution rounds: head = constructor (machine, model,
+  md_rounds : list (list nat);            (* resolution rounds: head = constructor (machine, model,
                                              constructor listeners), then one per add_listener call *)
+  md_erounds : nat }.                     (* how many of the rounds were resolved when the engine was chosen
+                                             (1 for a constructed machine, 2 for a clone) *)
 
 Record spec := { sp_name : cbname; sp_conv : bool; sp_evcond : option nat; sp_expected : option bool }.
 
@@ -152,7 +154,13 @@ Definition resolve_all (md : mdecl) : rmachine :=
 
 Definition with_rounds (md : mdecl) (r : list (list nat)) : mdecl :=
   {| md_states := md_states md; md_trans := md_trans md; md_start := md_start md; md_rtc := md_rtc md;
-     md_allow := md_allow md; md_providers := md_providers md; md_coro := md_coro md; md_rounds := r |}.
+     md_allow := md_allow md; md_providers := md_providers md; md_coro := md_coro md; md_rounds := r;
+     md_erounds := md_erounds md |}.
+
+Definition with_erounds (md : mdecl) (n : nat) : mdecl :=
+  {| md_states := md_states md; md_trans := md_trans md; md_start := md_start md; md_rtc := md_rtc md;
+     md_allow := md_allow md; md_providers := md_providers md; md_coro := md_coro md; md_rounds := md_rounds md;
+     md_erounds := n |}.
 
 (* the engine (sync or async) is chosen once, from what the constructor registered; listeners added
    later extend the executors but never change the engine *)
@@ -160,7 +168,7 @@ Definition resolve (md : mdecl) : rmachine :=
   let r := resolve_all md in
   {| rm_states := rm_states r; rm_trans := rm_trans r; rm_start := rm_start r; rm_rtc := rm_rtc r;
      rm_allow := rm_allow r;
-     rm_async := rm_async (resolve_all (with_rounds md [hd [] (md_rounds md)])) |}.
+     rm_async := rm_async (resolve_all (with_rounds md (firstn (md_erounds md) (md_rounds md)))) |}.
 
 (* add_listener( *objs ): one more resolution round *)
 Definition add_round (md : mdecl) (ps : list nat) : mdecl := with_rounds md (md_rounds md ++ [ps]).
